@@ -70,6 +70,7 @@ class Sym(Val):
         self.types = types          # set of type names this value is an instance of (closed world) or None
         self.attrs = attrs or {}    # attribute name -> Val (scenario facts such as is_uid -> Const(True))
         self.nonnull = nonnull
+        self.skel = None            # boolean skeleton when the value is the result of a test (flag variables: ok = a == b)
 
     def __repr__(self):
         return 'Sym(%s)' % self.text
@@ -478,7 +479,8 @@ def _clone(v):
 class Scenario(object):
     """Finite facts a path depends on."""
     def __init__(self, name='', bind=None, axioms=None, inline=None, inline_props=None, max_depth=3, self_cls=None,
-                 args=None, unroll=None, oracle=None, forward_stores=True, model_del=True, join_unknown=False):
+                 args=None, unroll=None, oracle=None, forward_stores=True, model_del=True, join_unknown=False,
+                 decide_filters=False, raises=None):
         self.name = name
         self.bind = bind or {}            # dotted path -> Val
         self.axioms = axioms or {}        # normalised condition text -> bool
@@ -492,10 +494,22 @@ class Scenario(object):
         self.forward_stores = forward_stores   # False for parse methods: attribute stores go through property setters
         self.model_del = model_del        # del buf[:n] rebinds buf to the remaining octets (False for reader-sequence extraction)
         self.join_unknown = join_unknown  # undecided `if`: run both arms and join the normal exits (call/store sets are united)
+        self.decide_filters = decide_filters   # comprehension filters the scenario decides are applied (True: dropped, False: empty result)
+        self.raises = raises              # callable(call text) -> exception text | None: calls the scenario says raise (the statement
+                                          # ends the path with status 'raise' in the state reached so far; an enclosing try may catch it)
 
+
+HASHLIB_CTORS = ('md5', 'sha1', 'sha224', 'sha256', 'sha384', 'sha512', 'sha3_224', 'sha3_256', 'sha3_384', 'sha3_512', 'blake2b', 'blake2s')
 
 BUILTIN_TYPES = {'str', 'bytes', 'bytearray', 'int', 'bool', 'list', 'tuple', 'set', 'dict', 'NoneType', 'datetime',
                  'timedelta'}
+
+
+class CallRaises(Exception):
+    """A call the scenario declares as raising (Scenario.raises) was evaluated."""
+    def __init__(self, text):
+        Exception.__init__(self, text)
+        self.text = text
 
 
 class Interp(object):
@@ -593,7 +607,14 @@ class Frame(object):
         if m is None:
             self.I.notes.append('unmodelled statement %s in %s' % (type(node).__name__, self.fi.qualname))
             return [(st, 'normal')]
-        return m(node, st)
+        if self.sc.raises is None:
+            return m(node, st)
+        try:
+            return m(node, st)
+        except CallRaises as ex:
+            st.raised = ex.text
+            st.events.append(('raise', ex.text, getattr(node, 'lineno', 0)))
+            return [(st, 'raise')]
 
     def st_Pass(self, node, st):
         return [(st, 'normal')]
@@ -812,6 +833,8 @@ class Frame(object):
         if t in self.sc.unroll:
             return self.sc.unroll[t], t
         if isinstance(itv, ListV) and len(itv.elems) <= 12:
+            if any(isinstance(e, Sym) and e.text.startswith('*') for e in itv.elems):
+                return None, t          # (a, *rest): the starred part has unknown length - summarise
             return itv.elems, t
         if isinstance(itv, Const) and isinstance(itv.value, (tuple, list)) and len(itv.value) <= 12:
             return [Const(x) for x in itv.value], t
@@ -819,6 +842,8 @@ class Frame(object):
 
     def st_For(self, node, st):
         vals, colltext = self._iter_values(node.iter, st, self._bname(node))
+        if vals is not None and isinstance(node.target, (ast.Tuple, ast.List)) and any(isinstance(v, EachV) for v in vals):
+            vals = None     # a summarised segment of unknown length cannot be destructured element-wise: summarise this loop too
         if vals is not None:
             cur = [(st, 'normal')]
             for v in vals:
@@ -1004,6 +1029,10 @@ class Frame(object):
             ft = self.text(test.func, st)
             args = [self.text(a, st) for a in test.args]
             return ('call', ft, args)
+        if isinstance(test, (ast.Name, ast.Attribute)):
+            v = self.ev(test, st, quiet=True)
+            if isinstance(v, Sym) and getattr(v, 'skel', None) is not None:
+                return v.skel           # a flag that holds the result of an earlier test
         return ('expr', self.text(test, st))
 
     def truth(self, v):
@@ -1282,6 +1311,8 @@ class Frame(object):
         if g.ifs or not isinstance(g.target, ast.Name):
             return None
         itv = self.ev(g.iter, st)
+        if isinstance(itv, EachV):
+            itv = ListV([itv], 'each')      # mapping over a summarised sequence maps its element: same summary, new element
         if not isinstance(itv, ListV) or len(itv.elems) > 12:
             return None
 
@@ -1291,6 +1322,8 @@ class Frame(object):
             s2 = st.fork()
             s2.env[g.target.id] = e
             return self.ev(node.elt, s2)
+        if itv.kind == 'each':
+            return apply(itv.elems[0])
         return ListV([apply(e) for e in itv.elems], 'list')
 
     def _comp(self, node, st, br):
@@ -1305,7 +1338,13 @@ class Frame(object):
             vt = self._assign_loopvars(g.target, s2, node, self._bname(g))
             st.bound[self._bname(g)] = it.split(' if ')[0]
             s2.bound[self._bname(g)] = it.split(' if ')[0]
-            conds = [self.cond_text(c, s2) for c in g.ifs]
+            conds = []
+            for c in g.ifs:
+                d = self.decide(c, s2) if self.sc.decide_filters else None
+                if d is False:
+                    return ListV([], 'set' if br == '{}' else 'list')      # the scenario says no element passes the filter
+                if d is None:
+                    conds.append(self.cond_text(c, s2))
             gens.append((vt, it, conds))
         if isinstance(node, ast.DictComp):
             eltv = None
@@ -1373,7 +1412,9 @@ class Frame(object):
         if d is not None and all(isinstance(v, Const) and isinstance(v.value, bool) for v in vals if self.truth(v) is not None):
             return Const(d)          # (as a value `x or <truthy object>` is x-or-the-object, not True)
         op = ' or ' if isinstance(node.op, ast.Or) else ' and '
-        return Sym('(%s)' % op.join(render(v) for v in vals))
+        r = Sym('(%s)' % op.join(render(v) for v in vals))
+        r.skel = self.cond_skel(node, st)
+        return r
 
     def ev_UnaryOp(self, node, st):
         v = self.ev(node.operand, st)
@@ -1381,7 +1422,9 @@ class Frame(object):
             d = self.decide(node, st)
             if d is not None:
                 return Const(d)
-            return Sym('not %s' % render(v))
+            r = Sym('not %s' % render(v))
+            r.skel = self.cond_skel(node, st)
+            return r
         if isinstance(v, Const) and isinstance(v.value, (int, float)) and not isinstance(v.value, bool):
             if isinstance(node.op, ast.USub):
                 return Const(-v.value)
@@ -1398,7 +1441,10 @@ class Frame(object):
         for op, c in zip(node.ops, node.comparators):
             parts.append(OPS[type(op)])
             parts.append(self.text(c, st))
-        return Sym('(%s)' % ' '.join(parts))
+        r = Sym('(%s)' % ' '.join(parts))
+        if len(node.ops) == 1:
+            r.skel = ('cmp', parts[1], parts[0], parts[2])
+        return r
 
     def ev_BinOp(self, node, st):
         l = self.ev(node.left, st)
@@ -1508,6 +1554,10 @@ class Frame(object):
         def record(ft):
             st.calls.append((ft, [render(a) for a in args], {k: render(v) for k, v in kwargs.items()}, node.lineno, node))
             st.events.append(('call', ft, [render(a) for a in args], {k: render(v) for k, v in kwargs.items()}, node.lineno))
+            if self.sc.raises is not None:
+                exc = self.sc.raises(ft)
+                if exc:
+                    raise CallRaises(exc)
 
         # ---- method calls on interpreted values
         if isinstance(func, ast.Attribute):
@@ -1556,6 +1606,16 @@ class Frame(object):
                     recv.elems.extend(args[0].elems)
                     record(ftext)
                     return Const(None)
+                if meth == 'insert' and len(args) == 2 and isinstance(args[0], Const) and isinstance(args[0].value, int) and \
+                        not isinstance(args[0].value, bool) and not any(isinstance(e, EachV) for e in recv.elems):
+                    recv.elems.insert(args[0].value, args[1])
+                    record(ftext)
+                    return Const(None)
+                if meth == 'extend' and len(args) == 1 and isinstance(args[0], EachV):
+                    # L.extend(<comprehension>) == for x in ..: L.append(elt): the same summary element a loop gets
+                    recv.elems.append(args[0])
+                    record(ftext)
+                    return Const(None)
             if isinstance(recv, Bytes) and meth == 'join' and len(args) == 1:
                 record(ftext)
                 if isinstance(args[0], ListV) and not merge_consts(recv.items):
@@ -1563,6 +1623,8 @@ class Frame(object):
                     for e in args[0].elems:
                         its.extend(as_items(e))
                     return Bytes(its)
+                if isinstance(args[0], EachV) and not merge_consts(recv.items):
+                    return Bytes(as_items(args[0]))     # b''.join(<comprehension>) == the loop that appends each element
                 if not merge_consts(recv.items):
                     return Bytes([('SYM', 'join(%s)' % render(args[0]))])
                 return Bytes([('SYM', '%s.join(%s)' % (render(recv), render(args[0])))])
@@ -1575,6 +1637,13 @@ class Frame(object):
                 h = Hasher(alg)
                 if len(args) > 1:
                     h.items.extend(as_items(args[1]))
+                return h
+            if fname is not None and fname.startswith('hashlib.') and fname[8:] in HASHLIB_CTORS:
+                # hashlib.sha1([data]) is hashlib.new('sha1'[, data])
+                record(fname)
+                h = Hasher(fname[8:])
+                if args:
+                    h.items.extend(as_items(args[0]))
                 return h
             if fname in ('hashes.Hash',) and args:
                 record(fname)
@@ -1614,6 +1683,7 @@ class Frame(object):
             if cls is not None:
                 fi = cls.find_method(meth)
                 if fi is not None and cls.find_prop(meth) is None and cls.find_plain_prop(meth) is None:
+                    args, kwargs = _positional(fi, args, kwargs, True)      # keyword arguments of a resolved callee -> positions
                     record('%s.%s' % (render(recv), meth))
                     self.I.resolved_calls += 1
                     r = self._maybe_inline(fi, recv, args, kwargs, st, node)
@@ -1633,11 +1703,12 @@ class Frame(object):
                 if r is not None:
                     return r
                 return Sym('%s(%s)' % (n, self._argtext(args, kwargs)))
-            if isinstance(callee, ClassV):
-                # a local that holds a class is called: construct it (locals are propagated by value)
+            if isinstance(callee, ClassV) and n not in self.fi.params:
+                # a local (not a parameter such as `cls`) bound to a class (k = A if c else B; k()): the call constructs that class
                 record(callee.ci.name)
                 return self._construct(callee.ci, args, kwargs, st, node)
             if isinstance(callee, Sym) and n not in self.fi.params:
+                # a local that holds an opaque callable: the call is a call of that value (locals are propagated by value)
                 record(callee.text)
                 return Sym('%s(%s)' % (callee.text, self._argtext(args, kwargs)))
             if n in ('bytearray', 'bytes'):
@@ -1653,6 +1724,8 @@ class Frame(object):
                     return Bytes([('C', bytes(a.value))])
                 if isinstance(a, Sym) and a.text.startswith('[') and ' for ' not in a.text:
                     return Bytes([('SYM', a.text)])
+                if isinstance(a, Sym) and st.bound.get(a.text, '').startswith('range('):
+                    return Bytes([('REP', [('C', b'\x00')], a.text)])      # bytes(i), i an index of a range: i zero octets
                 if isinstance(a, Const) and isinstance(a.value, int):
                     return Bytes([('REP', [('C', b'\x00')], render(a))])
                 return Bytes([('SYM', a.text if isinstance(a, Sym) else render(a))])
@@ -1665,6 +1738,13 @@ class Frame(object):
                         return Const(sum(len(i[1]) for i in its))
                 if isinstance(a, ListV):
                     return Const(len(a.elems))
+                lcls = a.cls if isinstance(a, (Sym, Obj)) else None
+                lfi = lcls.find_method('__len__') if lcls is not None else None
+                if lfi is not None and self.sc.inline is not None and self.sc.inline(lfi):
+                    # len(x) on an object of a known class is x.__len__() (only under an explicit inlining policy)
+                    r = self._maybe_inline(lfi, a, [], {}, st, node)
+                    if r is not None:
+                        return r
                 return Sym('len(%s)' % render(a))
             if n in ('int', 'bool', 'str') and len(args) == 1 and isinstance(args[0], Const) and \
                     not isinstance(args[0].value, Enum):
@@ -1854,6 +1934,27 @@ class Frame(object):
         if all(isinstance(v, (Bytes, Const)) for v in vals) and any(isinstance(v, Bytes) for v in vals):
             return Bytes([('ALT', [as_items(v) for v in vals])])
         return Sym('ALT(%s)' % ' | '.join(texts))
+
+
+def _positional(fi, args, kwargs, bound):
+    """Move keyword arguments of a call to a resolved callee into their positions (as far as they continue the positional list)."""
+    if not kwargs or '**' in kwargs:
+        return args, kwargs
+    a = fi.node.args
+    if a.vararg is not None:
+        return args, kwargs
+    params = [x.arg for x in a.posonlyargs + a.args]
+    is_static = any(dotted(d) == 'staticmethod' for d in fi.node.decorator_list)
+    if bound and fi.cls is not None and not is_static and params:
+        params = params[1:]
+    args = list(args)
+    kwargs = dict(kwargs)
+    for p in params[len(args):]:
+        if p in kwargs:
+            args.append(kwargs.pop(p))
+        else:
+            break
+    return args, kwargs
 
 
 def _preorder(node):
